@@ -426,9 +426,12 @@ class simplify_chained_calls(FuncADLNodeTransformer):
         """
         if type(call_node.func) is ast.Lambda:
             arg_asts = [self.visit(a) for a in call_node.args]
+            keyword_asts = {k.arg: self.visit(k.value) for k in call_node.keywords}
             with stack_frame(self._arg_stack):
                 for a_name, arg in zip(call_node.func.args.args, arg_asts):
                     self._arg_stack.define_name(a_name.arg, arg)
+                for k_name, arg in keyword_asts.items():
+                    self._arg_stack.define_name(k_name, arg)
                 # Now, evaluate the expression, and then lift it.
                 return self.visit(call_node.func.body)
         elif _is_method_call_on_first(call_node):
